@@ -560,6 +560,69 @@ def zero_divisors(ctx):
     ctx.count("divisions by a divisor holding zeros", n)
 
 
+def views_and_explicit_validation(ctx):
+    """(1) A short-lived Array built on a *view* of an array the caller goes on using (`depths[1:]`, a transposed or reshaped
+    view) and operated with a number: the caller's array holds what it held. (2) The explicit overload
+    `ValidateValues(values, quantity)` judges what it is given and leaves the array it is called on alone."""
+    import numpy as np
+    from barril.units import Array, FixedArray, ObtainQuantity
+
+    n = 0
+    for mkview, name in ((lambda b: b[1:], "slice"), (lambda b: b[::2], "strided slice"), (lambda b: b.reshape(2, 3).T, "transposed reshape"), (lambda b: b.view(), "view()"), (lambda b: b[:], "full slice")):
+        for sym, fn in (("* 1000.0", lambda a: a * 1000.0), ("+ 1.0", lambda a: a + 1.0), ("/ 4.0", lambda a: a / 4.0), ("- 2", lambda a: a - 2), ("chain", lambda a: (a * 2.0 + 1.0) / 3.0)):
+            base = np.array([1.0, 2.0, 4.0, 8.0, 16.0, 32.0])
+            before = base.tobytes()
+            ctx.ev()
+            n += 1
+            try:
+                res = fn(Array(mkview(base), "m"))
+                res2 = fn(FixedArray(len(mkview(base)), mkview(base), "m")) if mkview(base).ndim == 1 else None
+                del res, res2
+                # ... and written as one expression, the way it stands in a program (the Array exists only on the evaluation stack)
+                vexpr = {"slice": "base[1:]", "strided slice": "base[::2]", "transposed reshape": "base.reshape(2, 3).T", "view()": "base.view()", "full slice": "base[:]"}[name]
+                oexpr = {"* 1000.0": "%s * 1000.0", "+ 1.0": "%s + 1.0", "/ 4.0": "%s / 4.0", "- 2": "%s - 2", "chain": "(%s * 2.0 + 1.0) / 3.0"}[sym]
+                for ctor in ('Array(%s, "m")', 'Array("length", %s, "cm")', 'FixedArray(len(%s), %s, "m")' if name in ("slice", "strided slice", "view()", "full slice") else 'Array(%s, "m")'):
+                    eval(oexpr % (ctor % ((vexpr,) * ctor.count("%s"))), {"base": base, "Array": Array, "FixedArray": FixedArray})
+            except Exception as e:
+                ctx.count("operations on views refused (%s)" % type(e).__name__)
+            if base.tobytes() != before:
+                ctx.violation("operand-changed-by:a-number-applied-to-a-short-lived-array-on-a-view", {"view": name, "op": sym, "held": [1.0, 2.0, 4.0, 8.0, 16.0, 32.0], "holds": base.tolist()})
+    # the same in a process of its own, without the probes of this harness: who else refers to an operand - a wrapper around the
+    # operator does - is part of what a library may look at, so the expressions are also run where nothing of mine is in the way
+    import json
+    import os
+    import subprocess
+
+    try:
+        p = subprocess.run([env.PYTHON, os.path.join(env.VERIF_DIR, "vp", "children", "views_child.py")], capture_output=True, text=True, timeout=300, env=dict(os.environ, VERIF_REPO=env.REPO))
+        report = json.loads(p.stdout.strip().splitlines()[-1])
+    except Exception as e:
+        ctx.inconclusive.append("the unprobed process did not answer: %s" % repr(e)[:160])
+        report = {"expressions": 0, "findings": []}
+    ctx.count("expressions on views evaluated in an unprobed process", report["expressions"])
+    for f in report["findings"]:
+        if f.get("changed"):
+            ctx.violation("operand-changed-by:a-number-applied-to-a-short-lived-array-on-a-view", dict(f, where="a process without probes"))
+        else:
+            ctx.count("expressions on views refused in the unprobed process")
+    q_m, q_s = ObtainQuantity("m", "length"), ObtainQuantity("s", "time")
+    for kind, mk in (("list", list), ("nd", lambda z: np.array(z, dtype=float)), ("tuple", tuple)):
+        own = mk([1.0, 2.0, 4.0])
+        a = Array("length", own, "m")
+        snap0 = (snapshot.value_object(a), snapshot.container(own))
+        for other_vals, other_q in ((mk([5.0, 6.0]), q_s), (mk([7.0]), q_m), (mk([1.0, 2.0, 4.0]), q_s)):
+            ctx.ev()
+            n += 1
+            try:
+                a.ValidateValues(other_vals, other_q)
+            except Exception:
+                pass
+            if (snapshot.value_object(a), snapshot.container(own)) != snap0:
+                ctx.violation("operand-changed-by:ValidateValues(values, quantity)", {"container": kind, "validated": repr(other_vals)[:60], "array_now": repr(a)[:120]})
+                snap0 = (snapshot.value_object(a), snapshot.container(own))
+    ctx.count("views of living arrays / explicit validations", n)
+
+
 def identity_unit_pairs(ctx, db):
     """Two symbols of one quantity type that stand for the same size ('Euc' and '-', 'm3/m3' and its namesakes): re-expressing
     one in the other is the identity - which is exactly where a 'converted temporary' may turn out to be the operand's own
@@ -733,6 +796,7 @@ def run(ctx):
         with table.pushed(db):
             zero_divisors(ctx)
             identity_unit_pairs(ctx, db)
+            views_and_explicit_validation(ctx)
     ctx.notes["operand_monitor"] = {"boundary_calls_observed": mon.n_calls, "operand_snapshots_compared": mon.n_snapshots}
     ctx.inconclusive_if(mon.n_snapshots < 1000, "operand monitor compared fewer than 1000 snapshots")
     ctx.inconclusive_if(probe.BOUNDARY["Scalar.__reduce__"] == 0 and probe.COUNTS["Scalar.__reduce__"] == 0, "pickle path never reached")
